@@ -198,6 +198,8 @@ pub enum CollMode {
     Summary,
     /// concrete array of n distinct symbolic elements
     Unrolled(usize),
+    /// outer collection summarised, the Vec owned by each element unrolled to n
+    InnerUnrolled(usize),
 }
 
 pub fn entry_val(ix: &Index, ty: &syn::Type, name: &str, mode: CollMode, st: &mut St) -> Val {
@@ -210,27 +212,75 @@ pub fn entry_val(ix: &Index, ty: &syn::Type, name: &str, mode: CollMode, st: &mu
             }
             entry_val(ix, &r.elem, name, mode, st)
         }
-        syn::Type::Slice(s) => coll_val(&s.elem, name, mode),
+        syn::Type::Slice(s) => coll_val(ix, &s.elem, name, mode),
         syn::Type::Path(p) => {
             let last = p.path.segments.last().unwrap();
             let n = last.ident.to_string();
             if n == "bool" { return Val::Atom(F::A(name.to_string())); }
             if n == "Vec" {
                 if let syn::PathArguments::AngleBracketed(a) = &last.arguments {
-                    if let Some(syn::GenericArgument::Type(t)) = a.args.first() { return coll_val(t, name, mode); }
+                    if let Some(syn::GenericArgument::Type(t)) = a.args.first() { return coll_val(ix, t, name, mode); }
                 }
             }
-            let _ = ix;
             Val::Sym { ty: Ty::from_syn(ty), path: name.to_string() }
         }
         _ => Val::Sym { ty: Ty::from_syn(ty), path: name.to_string() },
     }
 }
-fn coll_val(elem: &syn::Type, name: &str, mode: CollMode) -> Val {
+fn coll_val(ix: &Index, elem: &syn::Type, name: &str, mode: CollMode) -> Val {
     match mode {
-        CollMode::Summary => Val::Sym { ty: Ty::Slice(Box::new(Ty::from_syn(elem))), path: name.to_string() },
-        CollMode::Unrolled(n) => Val::Array((1..=n).map(|k| Val::Sym { ty: Ty::from_syn(elem), path: format!("{name}[#{k}]") }).collect()),
+        CollMode::Summary | CollMode::InnerUnrolled(_) => Val::Sym { ty: Ty::Slice(Box::new(Ty::from_syn(elem))), path: name.to_string() },
+        CollMode::Unrolled(n) => { let _ = (ix, elem_val as fn(&Index, &syn::Type, &str, usize) -> Val); Val::Array((1..=n).map(|k| Val::Sym { ty: Ty::from_syn(elem), path: format!("{name}[#{k}]") }).collect()) }
     }
+}
+/// element of an unrolled collection: a crate struct that itself owns a collection is spelt out so that
+/// the nested collection is unrolled too
+fn elem_val(ix: &Index, elem: &syn::Type, path: &str, n: usize) -> Val {
+    let ty = Ty::from_syn(elem);
+    if let Some(sd) = ty.name().and_then(|s| ix.structs.get(s)) {
+        let has_coll = sd.fields.iter().any(|(_, t)| crate::index::ty_str(t).starts_with("Vec<"));
+        if has_coll {
+            let mut fields = Vec::new();
+            for (fname, fty) in &sd.fields {
+                let fpath = format!("{path}.{fname}");
+                let v = if let syn::Type::Path(p) = fty {
+                    let last = p.path.segments.last().unwrap();
+                    if last.ident == "Vec" {
+                        if let syn::PathArguments::AngleBracketed(a) = &last.arguments {
+                            if let Some(syn::GenericArgument::Type(t)) = a.args.first() { Val::Array((1..=n).map(|k| elem_val(ix, t, &format!("{fpath}[#{k}]"), n)).collect()) } else { Val::Sym { ty: Ty::from_syn(fty), path: fpath } }
+                        } else { Val::Sym { ty: Ty::from_syn(fty), path: fpath } }
+                    } else { Val::Sym { ty: Ty::from_syn(fty), path: fpath } }
+                } else { Val::Sym { ty: Ty::from_syn(fty), path: fpath } };
+                fields.push((fname.clone(), v));
+            }
+            return Val::Struct { name: sd.name.clone(), fields };
+        }
+    }
+    Val::Sym { ty, path: path.to_string() }
+}
+
+/// names and declared types of the variables a role's arm passes to its builder
+pub fn role_roots(ix: &Index, role: &Role) -> Vec<(String, syn::Type)> {
+    struct AB<'a> { ix: &'a Index, binds: Vec<(String, syn::Type)> }
+    impl<'ast, 'a> Visit<'ast> for AB<'a> {
+        fn visit_expr_call(&mut self, c: &'ast syn::ExprCall) {
+            if let syn::Expr::Path(p) = &*c.func {
+                let n = p.path.segments.last().unwrap().ident.to_string();
+                if let Some(f) = self.ix.get_fn(&n) {
+                    let params: Vec<&syn::Type> = f.sig.inputs.iter().filter_map(|i| if let syn::FnArg::Typed(t) = i { Some(&*t.ty) } else { None }).collect();
+                    for (a, pt) in c.args.iter().zip(params) {
+                        let mut e = a;
+                        while let syn::Expr::Reference(r) = e { e = &r.expr; }
+                        if let syn::Expr::Path(ap) = e { if let Some(id) = ap.path.get_ident() { self.binds.push((id.to_string(), pt.clone())); } }
+                    }
+                }
+            }
+            syn::visit::visit_expr_call(self, c);
+        }
+    }
+    let mut ab = AB { ix, binds: vec![] };
+    ab.visit_expr(&role.body);
+    ab.binds
 }
 
 /// Evaluate the arm body of a role with parameters derived from the callee's signature.
